@@ -70,9 +70,11 @@ def validate_runs(events, shards=4):
     """Validate events with Trace_Stream, sharded over a few TLC processes. Returns failures."""
     if not events:
         return [], 0
-    n = max(1, min(shards, len(events) // 500 + 1))
+    # the monitor handles a few thousand runs a minute: shard so that no TLC process gets more than ~25 000
+    n = max(1, min(shards, len(events) // 500 + 1), min(14, len(events) // 25000 + 1))
     chunks = [events[i::n] for i in range(n)]
-    res = core.pmap(lambda ch: tlc.validate_trace("Trace_Stream", ch, heap="3g"), chunks, jobs=n)
+    tmo = max(1800, len(chunks[0]) // 20)
+    res = core.pmap(lambda ch: tlc.validate_trace("Trace_Stream", ch, heap="3g", timeout=tmo), chunks, jobs=n)
     failed = []
     drift = []
     for f, r in res:
